@@ -10,12 +10,14 @@ package component_definition
 //@ spec func ArgHas1(m TagArg, t ArgType, w string) bool = in(Fmt(t), m) && exists(i, int, 0 <= i && i < len(m[Fmt(t)]) && m[Fmt(t)][i] == w)
 
 //@ func formatArgType
+//@ terminates
 //@ property C19
 //@ requires [non-empty-name] argType != ""
 //@ assigns nothing
 //@ ensures [normalises-first-letter] result == Fmt(argType)
 
 //@ func isIntersect
+//@ terminates
 //@ property C19
 //@ assigns nothing
 //@ ensures [intersects] result == exists(i, int, 0 <= i && i < len(a) && exists(j, int, 0 <= j && j < len(b) && a[i] == b[j]))
@@ -37,6 +39,7 @@ package component_definition
 //@ ensures [appended-under-normalised-name] implies(argType != "", in(Fmt(argType), m) && len(m[Fmt(argType)]) == len(old(m[Fmt(argType)])) + len(val) && forall(k, ArgType, implies(k != Fmt(argType), in(k, m) == old(in(k, m)) && m[k] == old(m[k]))))
 
 //@ func (TagArg).Find
+//@ terminates
 //@ property C19
 //@ requires [non-empty-name] argType != ""
 //@ assigns nothing
@@ -44,6 +47,7 @@ package component_definition
 //@ ensures [find-values] implies(result1, result0 == m[Fmt(argType)])
 
 //@ func (TagArg).Has
+//@ terminates
 //@ property C19
 //@ requires [non-empty-name] argType != ""
 //@ assigns nothing
@@ -102,6 +106,7 @@ package component_definition
 //@ pure
 
 //@ func filter
+//@ terminates
 //@ property C02 C06
 //@ requires [f-callable] forall(k, int, implies(0 <= k && k < len(metas), callpre(f, metas[k])))
 //@ assigns FilterSrc, FilterPos
@@ -128,6 +133,7 @@ package component_definition
 
 // dependOn records the holder on the injected version (what the stale-version check of C03 reads).
 //@ func (*Meta).dependOn
+//@ terminates
 //@ property C03
 //@ requires [metas-built] MetaOK(m) && dependent != nil
 //@ assigns m.Dependent, m.dependentSet.Dom, m.dependentSet.Val
@@ -138,6 +144,7 @@ package component_definition
 //@ spec func IsComponentPoint(n *Property) bool = n.PropertyType == PropertyTypeComponent
 
 //@ func (*Property).Inject
+//@ terminates
 //@ property C01 C02 C03 C06 C07 C09
 //@ requires [point-wellformed] PointOK(n)
 //@ requires [field-settable] implies(IsComponentPoint(n) && len(metas) != 0, RCanSet(n.Value) && RTypeOf(n.Value) == n.Type && RFieldLoc(RLoc(n.Value)))
@@ -170,6 +177,7 @@ package component_definition
 //@ spec func PlainComponent(c any) bool = c != nil && !typeIs(c, reflect.Value) && !implements(c, reflect.Type)
 
 //@ func NewBase
+//@ terminates
 //@ property C11 C01
 //@ assigns nothing
 //@ ensures [base] fresh(result) && result.Type == RDynType(c) && RTypeOf(result.Value) == RDynType(c) && result.originAddress == RPtr(result.Value) && RValid(result.Value) == (c != nil) && implies(c != nil, result.Type != nil && RInterface(result.Value) == c)
@@ -177,6 +185,7 @@ package component_definition
 // NewMeta: a fresh Meta whose Value / Raw are the component, named as GetComponentNameWithAlias says, with its
 // settable leaf fields scanned (FieldsInv) and empty property groups. The scan runs with ScanTarget set to the new Meta.
 //@ func NewMeta
+//@ terminates
 //@ property C11 C01 C03
 //@ requires [component-non-nil] PlainComponent(c)
 //@ assigns RTop
@@ -189,11 +198,13 @@ package component_definition
 //@ ghost after call scanFields: ScanTarget = t0
 
 //@ func (*Meta).SetName
+//@ terminates
 //@ property C03 C07
 //@ assigns m.alias
 //@ ensures [set-name] m.alias == ite(name != m.name, name, old(m.alias))
 
 //@ func CreateProxy
+//@ terminates
 //@ property C03 C01
 //@ requires [no-interceptors] len(interceptors) == 0
 //@ requires [named] name != "" && PlainComponent(newComponent)
@@ -202,6 +213,7 @@ package component_definition
 //@ ensures [proxy-keeps-name] result0.Name() == name || (name == result0.name && result0.alias != "")
 
 //@ func (*Meta).GetDependents
+//@ terminates
 //@ property C03
 //@ requires [dependents-built] m != nil && forall(i, int, implies(0 <= i && i < len(m.Dependent), m.Dependent[i] != nil), m.Dependent[i])
 //@ assigns nothing
@@ -223,6 +235,7 @@ package component_definition
 //@ spec func PropsOf(m *Meta, t PropertyType) []*Property
 
 //@ func (*Meta).GetComponentProperties
+//@ terminates
 //@ property C01
 //@ assigns nothing
 //@ ensures [component-group] result == PropsOf(m, PropertyTypeComponent)
@@ -297,6 +310,7 @@ package component_definition
 //@ ensures [rtop-monotone] RTop >= old(RTop)
 
 //@ func (*Property).SetConfiguration
+//@ terminates
 //@ property C09
 //@ requires [property-built] n != nil && n.Configurations != nil
 //@ assigns mapcontents(n.Configurations)
@@ -316,12 +330,14 @@ package component_definition
 //@ spec func HolderOK(m *Meta, h *Holder) bool = h != nil && h.Base != nil && h.Meta == m && h.Type != nil && h.Type == RTypeOf(h.Value) && implies(h.Type.Kind() == 22, h.Type.Elem() != nil)
 
 //@ func NewHolder
+//@ terminates
 //@ property C11
 //@ requires [meta] m != nil
 //@ assigns nothing
 //@ ensures [holder] fresh(result) && result.Base == m.Base && result.Meta == m && !result.IsEmbed && result.Holder == nil
 
 //@ func NewEmbedHolder
+//@ terminates
 //@ property C11
 //@ requires [outer] holder != nil
 //@ assigns nothing
@@ -332,6 +348,8 @@ package component_definition
 // and this holder; nothing else is written - in particular no memory of the component.
 //@ func (*Meta).scanFields$1
 //@ property C11
+//@ decreases ite(field.Type.Kind() == 25, RDepth(field.Type) + 1, 0), 2
+//@ terminates
 //@ callback functype reflectx.FieldAcceptor
 //@ stable m, holder, holder.Meta
 //@ requires-at-creation [captured] m != nil && m == ScanTarget && holder != nil && holder.Meta == m
@@ -347,6 +365,8 @@ package component_definition
 
 //@ func (*Meta).scanFields
 //@ property C11
+//@ decreases RDepth(ite(holder.Type.Kind() == 22, holder.Type.Elem(), holder.Type)) + 1, 1
+//@ terminates
 //@ requires [scanning] m != nil && ScanTarget == m && FieldsInv(m)
 //@ requires [holder-built] HolderOK(m, holder)
 //@ assigns m.Fields, m.Offered
